@@ -350,7 +350,7 @@ func startItem(i, j int) {
 		m.StartServiceWorker(name, 5*time.Millisecond, func(ctx context.Context) error {
 			if it.Ret == "restart" && atomic.CompareAndSwapInt32(&first, 1, 0) {
 				mev(i, "workEnter", fmt.Sprintf("i%d", j), ctx)
-				hev("h workRestart %d i%d", i, j)
+				hev("h workExit %d i%d status=%d restart", i, j, mods[i].Status())
 				return modules.ErrRestartNow
 			}
 			return body(i, j, ctx)
